@@ -753,17 +753,16 @@ let check_d (q : string) (spec : string) (o : string array) input =
   List.iter (fun part -> match String.split_on_char '=' part with
     | [k; v] when v <> "" -> List.iter (fun n -> if k = "rm" then rm := int_of_string n :: !rm else if k = "ov" then ov := int_of_string n :: !ov) (String.split_on_char ',' v)
     | _ -> ()) (String.split_on_char ';' spec);
-  (* model run with the same tracing functions *)
-  let trace = ref [] in
+  (* model run with the same (pure) tracing functions: Driver.render_tr, the fold the C15 theorems are about, returns the call log *)
   let fns (op : operator) =
     let k = opnum op in
     if List.mem k !rm then None
     else Some (fun (l : char list) (r : char list) ->
-      trace := Printf.sprintf "%d:%s:%s" k (hex l) (hex r) :: !trace;
       let name = (if List.mem k !ov then "g" else "f") ^ string_of_int k in
       Ret (chars_of_string (name ^ "<" ^ string_of_chars l ^ "|" ^ string_of_chars r ^ ">"), None)) in
-  let m = m_sres (render_with orc2 fns e) in
-  let mt = String.concat " " (List.rev !trace) in
+  let (m, mt) = match render_tr orc2 fns e with
+    | Ret (x, tr) -> (m_sres (Ret x), String.concat " " (List.map (fun ((op, l), r) -> Printf.sprintf "%d:%s:%s" (opnum op) (hex l) (hex r)) tr))
+    | Panic _ -> ("PANIC", "") in
   bump "corr.CustomRender";
   if m <> o.(1) then record_mismatch "CustomRender" (input @ [("go", o.(1)); ("model", m)])
   else if mt <> o.(2) then record_mismatch "CustomRenderTrace" (input @ [("go", o.(2)); ("model", mt)]);
